@@ -113,6 +113,12 @@ class Corpus:
 
     def add(self, e: ESpec, in_domain=True):
         assert e.id not in self.by_id, e.id
+        # the NAME of the enum's lifetime parameter (generated impl headers add lifetimes of their own): semantics-free, so
+        # rotated over every enum of the corpus that has one
+        if 'lt_name' not in e.extra and (e.generics in ('lt', 'lt_ty') or any(t == 'RefStr' for v in e.variants for t in v.ftypes)):
+            self.n_lt = getattr(self, 'n_lt', 0)
+            e.extra['lt_name'] = ['a', 's', 'e', 'de', 'b', 'input'][self.n_lt % 6]
+            self.n_lt += 1
         add_noise(e)
         e.extra.setdefault('in_domain', in_domain)
         self.especs.append(e)
